@@ -57,7 +57,7 @@ theorem C03_recorded_once (E D : Spec.Rfc4493.BlockFn) (cfg : Config) (db : DB) 
     (hx : x.1 ∉ (run E D cfg (Sys.init db) evs).resetsUp) :
     (run E D cfg (Sys.init db) evs).recordedUp.count x ≤ 1 ∧
     (x ∈ (run E D cfg (Sys.init db) evs).recordedUp → x ∈ (run E D cfg (Sys.init db) evs).acceptedUp) := by
-  obtain ⟨h1, h2⟩ := (kinv_run E D cfg _ evs (kinv_init db)).up x hx
+  obtain ⟨h1, h2⟩ := (kinv_run E D cfg _ evs (kinv_init cfg db)).up x hx
   simp only [Book.circ, upBook] at h1 h2
   refine ⟨by omega, fun hm => h2 ?_⟩
   have : 0 < (run E D cfg (Sys.init db) evs).recordedUp.count x := List.count_pos_iff.mpr hm
@@ -111,7 +111,7 @@ theorem C03_failed_write_stops (E : Spec.Rfc4493.BlockFn) (sys : Sys) (s : UpSt)
 example :
     let d : Device := { eui := [1#8], appEUI := [2#8], devAddr := 7, appKey := [], nwkSKey := [], appSKey := [], fcntUp := 5, fcntDn := 0,
                         relaxed := false, keyWarning := false, nonces := [] }
-    let db : DB := ⟨[d], [[2#8]], [], []⟩
+    let db : DB := ⟨[d], [[2#8]], [], [], []⟩
     (db.advanceFCntUp [1#8] 5 false).isSome = true ∧
     ((db.advanceFCntUp [1#8] 5 false).bind (fun db' => db'.advanceFCntUp [1#8] 5 false)).isSome = false := by
   decide
